@@ -171,6 +171,7 @@ type Snap struct {
 	Recs        []MigRec
 	DirFrom     []int64
 	DirTo       []int64
+	Locked      []BalRec
 }
 
 func ns(t time.Time) int64 { return t.Sub(lib.GenesisTime).Nanoseconds() }
@@ -206,6 +207,11 @@ func (h *Hist) Snapshot(ctx sdk.Context) *Snap {
 		}
 		for _, coin := range c.App.BankKeeper.GetAllBalances(ctx, a) {
 			s.Bal = append(s.Bal, BalRec{id, ids.Denom(coin.Denom), coin.Amount.BigInt()})
+		}
+		for _, coin := range c.App.BankKeeper.LockedCoins(ctx, a) {
+			if coin.Amount.IsPositive() {
+				s.Locked = append(s.Locked, BalRec{id, ids.Denom(coin.Denom), coin.Amount.BigInt()})
+			}
 		}
 	}
 
@@ -444,6 +450,7 @@ func (s *Snap) Coq(cfg string) string {
 		return "(" + z(x.A) + ", MR " + z(x.Flag) + " " + z(x.Other) + " " + z(x.Height) + ")"
 	}))
 	w(list(s.DirFrom, z))
-	b.WriteString(list(s.DirTo, z))
+	w(list(s.DirTo, z))
+	b.WriteString(list(s.Locked, func(x BalRec) string { return "(" + p2(x.A, x.D) + ", " + zb(x.X) + ")" }))
 	return b.String()
 }
